@@ -6,8 +6,8 @@
  * driven: FIRST, LAST and the increment are handed over as values, in the
  * representation main() has at that point).
  *
- * assume-guarantee: inside dseq.c the library's dt_dtadd(), dt_dtcmp() and
- * dt_dt_in_range_p() are replaced by their contracts vf_dtadd(), vf_dtcmp()
+ * assume-guarantee: inside dseq.c the library's dt_dtadd(), dt_dtcmp(),
+ * dt_get_wday() and dt_dt_in_range_p() are replaced by their contracts vf_dtadd(), vf_dtcmp()
  * and vf_in_range() (so that a dozen iterations stay solvable); the
  * obligations h_contract and h_contract_cmp prove the real functions equal to
  * the contracts on the domain the sequences use, and the stubs record whether
@@ -28,7 +28,6 @@
 #if !defined YHI
 # define YHI	4095
 #endif
-#define MAXOUT	(KMAX + 2)
 /* the domain of the contract */
 #define C_DLO	500
 #define C_DHI	905000
@@ -80,17 +79,18 @@ vf_dtadd(struct dt_dt_s d, struct dt_dtdur_s dur)
 			return d;
 		}
 		{
-			/* |step| < 24 h here (|n| <= 59 minutes/seconds, hours taken modulo 24);
-			 * carry by cascade, a solver chokes on the division form */
+			/* carry by cascade, a solver chokes on the division form */
 			int h = (int)d.t.hms.h, m = (int)d.t.hms.m, sec = (int)d.t.hms.s;
 			int c = 0;
 
+			/* no division: counts of less than a day / an hour / a minute */
+			vf_contract_domain &= dur.durtyp == DT_DURH ? (n > -24 && n < 24) : (n > -60 && n < 60);
 			if (dur.durtyp == DT_DURH) {
-				h += n % 24;
+				h += n;
 			} else if (dur.durtyp == DT_DURM) {
-				h += n / 60, m += n % 60;
+				m += n;
 			} else {
-				m += n / 60, sec += n % 60;
+				sec += n;
 			}
 			if (sec < 0) {
 				sec += 60, m--;
@@ -139,6 +139,38 @@ vf_dtcmp(struct dt_dt_s a, struct dt_dt_s b)
 	}
 	vf_contract_domain = 0;
 	return -2;
+}
+
+/* weekday of a day number (skipp() asks for nothing else here).  For the
+ * solver the weekday is an ARBITRARY function of the day number, given by
+ * a symbolic table around the state: the steps of the run are proved for
+ * every such function, the calendar's in particular (that the real
+ * dt_get_wday() depends on the day number only is the contract checked in
+ * contract:order:daisy); this spares some twenty 32-bit dividers per query,
+ * which the SAT back end did not get through.  The replay uses the real
+ * weekday. */
+#define WN	1024
+static const unsigned char *vf_wd;
+static int vf_wd_base;
+
+static int
+vf_wday_of(int day)
+{
+#if VF_REPLAY
+	return ref_wday(day);
+#else
+	int i = day - vf_wd_base;
+
+	vf_contract_domain &= vf_wd != NULL && i >= 0 && i < WN;
+	return 1 + vf_wd[i >= 0 && i < WN ? i : 0] % 7;
+#endif
+}
+
+static dt_dow_t
+vf_get_wday(struct dt_d_s d)
+{
+	vf_contract_domain &= d.typ == DT_DAISY && (int)d.daisy >= C_DLO && (int)d.daisy <= C_DHI;
+	return (dt_dow_t)vf_wday_of((int)d.daisy);
 }
 
 /* 1 iff D1 <= D <= D2 (dseq tests for 1 only) */
@@ -196,6 +228,8 @@ h_contract(void)
 		ASSUME(vh < 24 && vmi < 60 && vs < 60);
 		ASSUME(vunit == DT_DURH || vunit == DT_DURM || vunit == DT_DURS || vunit == DT_DURD ||
 		       vunit == DT_DURWK || vunit == DT_DURMO || vunit == DT_DURYR);
+		ASSUME(vunit != DT_DURH || (vn > -24 && vn < 24));
+		ASSUME((vunit != DT_DURM && vunit != DT_DURS) || (vn > -60 && vn < 60));
 		d.t.hms.h = vh, d.t.hms.m = vmi, d.t.hms.s = vs;
 		dt_make_t_only(&d, DT_HMS);
 	}
@@ -252,6 +286,9 @@ h_contract_cmp(void)
 	c02 = dt_dtcmp(v[0], v[2]);
 	ir = dt_dt_in_range_p(v[0], v[1], v[2]);
 	CHECK(c01 == vf_dtcmp(v[0], v[1]), "contract: order of two values");
+# if SHAPE == SHAPE_DAISY
+	CHECK(dt_get_wday(v[0].d) == (dt_dow_t)ref_wday((int)v[0].d.daisy), "contract: the weekday is a function of the day number (the calendar's)");
+# endif
 	CHECK((ir == 1) == (vf_in_range(v[0], v[1], v[2]) == 1), "contract: in range iff lo <= d <= hi");
 	CHECK(vf_contract_domain, "contract domain covers the inputs");
 	(void)c02;
@@ -262,51 +299,34 @@ h_contract_cmp(void)
 # define dt_dtadd	vf_dtadd
 # define dt_dtcmp	vf_dtcmp
 # define dt_dt_in_range_p	vf_in_range
+# define dt_get_wday	vf_get_wday
 # define main	dseq_main
 # include "dseq.c"
 # undef main
 # undef dt_dtadd
 # undef dt_dtcmp
 # undef dt_dt_in_range_p
+# undef dt_get_wday
 
-/* what was emitted: day number / (y*12+m-1)*32+d / seconds of the day */
-static int outv[MAXOUT];
-static unsigned int nout;
-
-static int
-vf_key(struct dt_dt_s d)
-{
-	if (dt_sandwich_only_t_p(d)) {
-		return vf_secs(d.t);
-	} else if (d.d.typ == DT_DAISY) {
-		return (int)d.d.daisy;
-	}
-	return ((int)d.d.ymd.y * 12 + (int)d.d.ymd.m - 1) * 32 + (int)d.d.ymd.d;
-}
-
-/* main() from the naught test to the output loop; -1 refused, 1 ran into
- * the guard (more members than the bound, or endless), 0 otherwise */
-static int
-vf_run(struct dseq_clo_s *clo, int from_last)
-{
-	struct dt_dt_s tmp;
-	unsigned int guard = 0;
-
-	if (__durstack_naught_p(clo->ite, clo->nite) || !(clo->dir = __get_dir(clo->fst, clo))) {
-		return -1;
-	} else if (from_last) {
-		tmp = __fixup_fst(clo);
-	} else {
-		tmp = __seq_this(clo->fst, clo);
-	}
-	for (; __in_range_p(dt_fixup(tmp), clo); tmp = __seq_next(tmp, clo)) {
-		if (guard++ >= MAXOUT) {
-			return 1;
-		}
-		outv[nout++] = vf_key(dt_fixup(tmp));
-	}
-	return 0;
-}
+/* The run of main() is
+ *	if (naught(ite) || !(dir = __get_dir(fst))) refuse;
+ *	tmp = from_last ? __fixup_fst() : __seq_this(fst);
+ *	for (; __in_range_p(dt_fixup(tmp)); tmp = __seq_next(tmp)) print(tmp);
+ * A whole run of even four members does not fit the solver here (3 million
+ * SSA steps, > 10 GB: every value is a union that is passed through five
+ * calls per member), so the run is decided through its steps, each from an
+ * arbitrary state:
+ *   DIR    __get_dir(FIRST) is the sign of the movement, 0 iff no movement
+ *   RANGE  __in_range_p(x) iff x has not passed LAST (and not before FIRST)
+ *   THIS   __seq_this(x) = x + j*INC for the least j >= 0 whose value is not
+ *          (skipped and in range)
+ *   NEXT   __seq_next(x) = THIS(x + INC), strictly beyond x
+ *   LAST   __fixup_fst() = the earliest member of {LAST - j*INC} in range
+ *          and not skipped
+ * By induction over the loop these give: printed = the members FIRST + k*INC
+ * in range and not skipped, in order, ending at the first member beyond
+ * LAST; NEXT's strict progress and RANGE's bound give termination.  The
+ * induction itself is an argument, not a solver query (DESIGN 8/C15). */
 
 static struct dt_dtdur_s
 mk_dur(unsigned int unit, int n)
@@ -323,98 +343,164 @@ mk_dur(unsigned int unit, int n)
 	return dur;
 }
 
-/* day and week steps over day-number held dates (what main() iterates after
- * its switch to day counts), with an arbitrary set of skipped weekdays; a
- * time unit between two dates must be refused or give nothing */
+#if !defined UNIT
+# define UNIT	DT_DURD
+#endif
+#if !defined JMAX
+# define JMAX	8	/* members the skip loop may pass */
+#endif
+
+/* ---- day numbers, day and week steps, any skip set ---- */
+static struct dt_dt_s
+mk_day(int n)
+{
+	struct dt_dt_s d;
+
+	memset(&d, 0, sizeof(d));
+	d.d.daisy = n;
+	dt_make_d_only(&d, DT_DAISY);
+	return d;
+}
+
+static int
+ref_day_in(int x, int fst, int lst, int dir)
+{
+	return dir > 0 ? (x >= fst && x <= lst) : (x <= fst && x >= lst);
+}
+
+static int
+ref_skipped(unsigned int ss, int x)
+{
+	return (ss >> vf_wday_of(x)) & 1;
+}
+
+/* the first of x, x + step, x + 2 step, ... (at most JMAX steps) that is not
+ * (skipped and in range); *found says whether there is one.  Computed by
+ * repeated addition like the code: a product j*step of two symbols is a
+ * multiplier circuit the SAT back end cannot relate to a chain of adders */
+static int
+ref_this_v(int x, int step, unsigned int ss, int fst, int lst, int dir, int *found)
+{
+	int v = x;
+
+	*found = 0;
+	for (int j = 0; j <= JMAX; j++) {
+		if (!(ref_skipped(ss, v) && ref_day_in(v, fst, lst, dir))) {
+			*found = 1;
+			return v;
+		}
+		v += step;
+	}
+	return v;
+}
+
 void
-h_seq_days(void)
+h_days(void)
 {
 	ND(i32, vfst);
 	ND(i32, vk);
 	ND(i32, vn);
-	ND(u8, vunit);
+	ND(i32, vx);
 	ND(u8, vskip);
-	ND(u8, vlast);
+	/* the weekday table: left uninitialised, i.e. arbitrary for the solver */
+	unsigned char wdtab[WN];
 	struct dseq_clo_s clo;
 	struct dt_dtdur_s ite;
-	int step, dir, lastv, rc;
-	int expn = 0;
-	int ok = 1;
+	int lst, step, dir, j;
 
-	ASSUME(vfst >= 1000 && vfst <= 900000);
-	ASSUME(vk >= -KMAX && vk <= KMAX);
+	vf_wd = wdtab;
+	vf_wd_base = (LEMMA == 1 ? vfst : LEMMA == 5 ? vfst + vk : vx) - WN / 2;
+
+	ASSUME(vfst >= 2000 && vfst <= 900000);
+	ASSUME(vk >= -1000 && vk <= 1000);
 	ASSUME(vn >= -NMAX && vn <= NMAX);
-	ASSUME(vunit == DT_DURD || vunit == DT_DURWK || vunit == DT_DURH || vunit == DT_DURS);
-	ASSUME(vlast <= 1);
-	/* the runner may fix the unit and the anchoring per query, as constants
-	 * (an assumed-equal symbol would not fold) */
-#if defined UNIT
-	ASSUME(vunit == UNIT);
-# define unit	((unsigned int)UNIT)
-#else
-# define unit	((unsigned int)vunit)
-#endif
-#if defined FROMLAST
-	ASSUME(vlast == FROMLAST);
-# define fromlast	(FROMLAST)
-#else
-# define fromlast	((int)vlast)
-#endif
+	ASSUME(vx >= vfst - 1100 && vx <= vfst + 1100);
 	/* bits 1..7 = Monday..Sunday, never all seven */
 	ASSUME((vskip & 0x7f) != 0x7f);
+	lst = vfst + vk;
 	memset(&clo, 0, sizeof(clo));
-	clo.fst.d.daisy = vfst;
-	dt_make_d_only(&clo.fst, DT_DAISY);
-	clo.lst.d.daisy = vfst + vk;
-	dt_make_d_only(&clo.lst, DT_DAISY);
-	ite = mk_dur(unit, vn);
+	clo.fst = mk_day(vfst);
+	clo.lst = mk_day(lst);
+	ite = mk_dur(UNIT, vn);
 	clo.ite = &ite;
 	clo.nite = 1;
 	clo.ss = (vskip & 0x7f) << 1;
-	lastv = vfst + vk;
+	step = UNIT == DT_DURWK ? 7 * vn : UNIT == DT_DURD ? vn : 0;
 
-	rc = vf_run(&clo, fromlast);
-	CHECK(vf_contract_domain, "contract domain covers the run");
-	CHECK(rc <= 0, "terminates within the bound");
-	if (unit == DT_DURH || unit == DT_DURS || vn == 0) {
-		CHECK(rc < 0 || nout == 0, "an increment that cannot move a date is refused or gives nothing");
-		WITNESS();
-		return;
-	}
-	CHECK(rc == 0, "a non-zero day increment is not refused");
-	step = unit == DT_DURWK ? 7 * vn : vn;
-	dir = step > 0 ? 1 : -1;
-	if (!fromlast) {
-		for (int j = 0; j <= KMAX; j++) {
-			int v = vfst + j * step;
-			int in = dir > 0 ? (v >= vfst && v <= lastv) : (v <= vfst && v >= lastv);
-			if (in && !((clo.ss >> ref_wday(v)) & 1)) {
-				ok &= expn < (int)nout && outv[expn < MAXOUT ? expn : 0] == v;
-				expn++;
-			}
-		}
+#if LEMMA == 1	/* DIR */
+	if (__durstack_naught_p(clo.ite, clo.nite)) {
+		CHECK(vn == 0, "only a zero increment counts as naught");
 	} else {
-		/* anchored at LAST: the members LAST - j*INC inside the bounds, in the direction of INC */
-		for (int j = KMAX; j >= 0; j--) {
-			int v = lastv - j * step;
-			int in = dir > 0 ? (v >= vfst && v <= lastv) : (v <= vfst && v >= lastv);
-			if (in && !((clo.ss >> ref_wday(v)) & 1)) {
-				ok &= expn < (int)nout && outv[expn < MAXOUT ? expn : 0] == v;
-				expn++;
-			}
-		}
+		dir = __get_dir(clo.fst, &clo);
+		CHECK(step > 0 ? dir > 0 : step < 0 ? dir < 0 : dir == 0,
+		      "direction is the sign of the movement; an increment that cannot move a date is refused");
 	}
-	CHECK((int)nout == expn, "nothing else, nothing twice, nothing beyond LAST");
-	CHECK(ok, "exactly the members of the progression, in order");
+#else
+	ASSUME(step != 0);
+	dir = step > 0 ? 1 : -1;
+	clo.dir = dir;
+# if LEMMA == 2	/* RANGE */
+	CHECK(__in_range_p(mk_day(vx), &clo) == (bool)ref_day_in(vx, vfst, lst, dir), "in range iff between FIRST and LAST in the direction of INC");
+# elif LEMMA == 3	/* THIS */
+	{
+		int e = ref_this_v(vx, step, clo.ss, vfst, lst, dir, &j);
+		ASSUME(j);
+		CHECK((int)__seq_this(mk_day(vx), &clo).d.daisy == e, "this: the first member from x on that is not skipped, or the first beyond the bounds");
+	}
+# elif LEMMA == 4	/* NEXT */
+	{
+		int e = ref_this_v(vx + step, step, clo.ss, vfst, lst, dir, &j);
+		int r;
+		ASSUME(j);
+		r = (int)__seq_next(mk_day(vx), &clo).d.daisy;
+		CHECK(r == e, "next: one increment, then the first member not skipped");
+		CHECK(dir > 0 ? r > vx : r < vx, "next moves strictly in the direction of INC");
+	}
+# elif LEMMA == 5	/* LAST */
+	{
+		/* the members LAST - j*INC inside the bounds, 0 <= j <= JMAX assumed to cover them all */
+		int best = 0, have = 0;
+		int r;
+
+		int v = lst;
+
+		for (int jj = 0; jj <= JMAX; jj++) {
+			if (ref_day_in(v, vfst, lst, dir) && !ref_skipped(clo.ss, v)) {
+				best = v, have = 1;
+			}
+			v -= step;
+		}
+		/* v is now LAST - (JMAX+1) increments: beyond FIRST, so all anchored members were seen */
+		ASSUME(dir > 0 ? v + step < vfst : v + step > vfst);
+		r = (int)__fixup_fst(&clo).d.daisy;
+		if (have) {
+			CHECK(r == best, "from-last: starts at the earliest member of the progression that ends on LAST");
+		} else {
+			CHECK(!ref_day_in(r, vfst, lst, dir) || ref_skipped(clo.ss, r), "from-last: nothing to print when every anchored member is skipped or out of bounds");
+		}
+		CHECK(clo.ite->d.dv == vn, "from-last leaves the increment as it was");
+	}
+# endif
+#endif
+	CHECK(vf_contract_domain, "contract domain covers the step");
+	(void)j;
 	WITNESS();
 }
-#undef unit
-#undef fromlast
 
-/* month and year steps over ymd dates: the k-th element is FIRST plus k
- * increments taken in one step, end-of-month clamped */
+/* ---- ymd dates, month and year steps (no skip set) ---- */
+static struct dt_dt_s
+mk_ymd(int y, int m, int d)
+{
+	struct dt_dt_s x;
+
+	memset(&x, 0, sizeof(x));
+	x.d.ymd.y = y, x.d.ymd.m = m, x.d.ymd.d = d;
+	dt_make_d_only(&x, DT_YMD);
+	return x;
+}
+
 void
-h_seq_months(void)
+h_months(void)
 {
 	ND(i32, vy);
 	ND(i32, vm);
@@ -422,124 +508,192 @@ h_seq_months(void)
 	ND(i32, vly);
 	ND(i32, vlm);
 	ND(i32, vld);
+	ND(i32, vxy);
+	ND(i32, vxm);
 	ND(i32, vn);
-	ND(u8, vunit);
 	struct dseq_clo_s clo;
 	struct dt_dtdur_s ite;
-	int step, rc, fkey, lkey;
-	int expn = 0;
-	int ok = 1;
+	int step, dir, fkey, lkey, xkey, xd;
 
-	ASSUME(vy >= YLO && vy <= YHI && vy > REF_MIN_YEAR + 30 && vy < REF_MAX_YEAR - 30);
+	ASSUME(vy >= YLO && vy <= YHI && vy > REF_MIN_YEAR + 70 && vy < REF_MAX_YEAR - 70);
 	ASSUME(ref_valid_ymd(vy, vm, vd));
-	ASSUME(vly >= vy - 30 && vly <= vy + 30);
+	ASSUME(vly >= vy - 60 && vly <= vy + 60);
 	ASSUME(ref_valid_ymd(vly, vlm, vld));
+	ASSUME(vxy >= vy - 66 && vxy <= vy + 66 && vxm >= 1 && vxm <= 12);
 	ASSUME(vn >= -NMAX && vn <= NMAX && vn != 0);
-	ASSUME(vunit == DT_DURMO || vunit == DT_DURYR);
-	step = vunit == DT_DURYR ? 12 * vn : vn;
-	fkey = (vy * 12 + vm - 1) * 32 + vd;
-	lkey = (vly * 12 + vlm - 1) * 32 + vld;
-	/* no more than KMAX + 1 members */
-	ASSUME(step > 0 ? (vly * 12 + vlm) - (vy * 12 + vm) <= KMAX * step
-	       : (vy * 12 + vm) - (vly * 12 + vlm) <= KMAX * -step);
+	step = UNIT == DT_DURYR ? 12 * vn : vn;
+	dir = step > 0 ? 1 : -1;
 	memset(&clo, 0, sizeof(clo));
-	clo.fst.d.ymd.y = vy, clo.fst.d.ymd.m = vm, clo.fst.d.ymd.d = vd;
-	dt_make_d_only(&clo.fst, DT_YMD);
-	clo.lst.d.ymd.y = vly, clo.lst.d.ymd.m = vlm, clo.lst.d.ymd.d = vld;
-	dt_make_d_only(&clo.lst, DT_YMD);
-	ite = mk_dur(vunit, vn);
+	clo.fst = mk_ymd(vy, vm, vd);
+	clo.lst = mk_ymd(vly, vlm, vld);
+	ite = mk_dur(UNIT, vn);
 	clo.ite = &ite;
 	clo.nite = 1;
+	/* the state: some month, FIRST's day of the month (kept by the adder, cropped by dt_fixup) */
+	xd = ref_mdays(vxy, vxm) < vd ? ref_mdays(vxy, vxm) : vd;
+	fkey = (vy * 12 + vm - 1) * 32 + vd;
+	lkey = (vly * 12 + vlm - 1) * 32 + vld;
+	xkey = (vxy * 12 + vxm - 1) * 32 + xd;
 
-	rc = vf_run(&clo, 0);
-	CHECK(vf_contract_domain, "contract domain covers the run");
-	CHECK(rc == 0, "a month increment is not refused and the run ends within the bound");
-	for (int k = 0; k <= KMAX; k++) {
-		int ey, em, ed, ekey, in;
-		ref_add_months(vy, vm, vd, k * step, &ey, &em, &ed);
-		ekey = (ey * 12 + em - 1) * 32 + ed;
-		in = step > 0 ? (ekey >= fkey && ekey <= lkey) : (ekey <= fkey && ekey >= lkey);
-		if (in) {
-			ok &= expn < (int)nout && outv[expn < MAXOUT ? expn : 0] == ekey;
-			expn++;
-		}
+#if LEMMA == 1	/* DIR */
+	CHECK(!__durstack_naught_p(clo.ite, clo.nite), "a non-zero increment is not naught");
+	{
+		int d = __get_dir(clo.fst, &clo);
+		CHECK(dir > 0 ? d > 0 : d < 0, "direction is the sign of the increment");
 	}
-	CHECK((int)nout == expn, "one element per increment up to and including LAST, none beyond");
-	CHECK(ok, "the k-th element is FIRST plus k increments in one step, clamped to the month's end");
+#elif LEMMA == 2	/* RANGE, on the cropped value as main() tests it */
+	clo.dir = dir;
+	{
+		struct dt_dt_s x = dt_fixup(mk_ymd(vxy, vxm, vd));
+		CHECK((int)x.d.ymd.y == vxy && (int)x.d.ymd.m == vxm && (int)x.d.ymd.d == xd, "the day is cropped to the month's end for printing");
+		CHECK(__in_range_p(x, &clo) == (bool)(dir > 0 ? (xkey >= fkey && xkey <= lkey) : (xkey <= fkey && xkey >= lkey)),
+		      "in range iff the cropped date is between FIRST and LAST");
+	}
+#elif LEMMA == 3	/* THIS and NEXT */
+	clo.dir = dir;
+	{
+		struct dt_dt_s x = mk_ymd(vxy, vxm, vd);
+		struct dt_dt_s t = __seq_this(x, &clo);
+		struct dt_dt_s n = __seq_next(x, &clo);
+		int tm = vxy * 12 + (vxm - 1) + step;
+		CHECK((int)t.d.ymd.y == vxy && (int)t.d.ymd.m == vxm && (int)t.d.ymd.d == vd, "this: no skip set, the value itself");
+		CHECK((int)n.d.ymd.y == tm / 12 && (int)n.d.ymd.m == tm % 12 + 1 && (int)n.d.ymd.d == vd,
+		      "next: one increment in one step from FIRST's day of the month (k-th member = FIRST + k*INC, cropped)");
+	}
+#endif
+	CHECK(vf_contract_domain, "contract domain covers the step");
+	(void)xkey, (void)fkey, (void)lkey;
 	WITNESS();
 }
 
-/* time-of-day bounds: around the clock in the direction of INC until LAST
- * is passed; a date unit between two times is refused or gives nothing */
-void
-h_seq_times(void)
+/* ---- times of day, h/m/s steps (single or compound), no skip set; the
+ * state is the time and the day carries date_add() keeps in d.u ---- */
+static struct dt_dt_s
+mk_tod(int h, int m, int sec, int carries)
 {
-	ND(u8, vh);
-	ND(u8, vmi);
-	ND(u8, vs);
-	ND(u8, vlh);
-	ND(u8, vlmi);
-	ND(u8, vls);
-	ND(i32, vn);
-	ND(u8, vunit);
-	struct dseq_clo_s clo;
-	struct dt_dtdur_s ite;
-	int s0, sl, step, dist, rc;
-	int expn = 0;
-	int ok = 1;
+	struct dt_dt_s x;
 
-	ASSUME(vh < 24 && vmi < 60 && vs < 60);
-	ASSUME(vlh < 24 && vlmi < 60 && vls < 60);
-	ASSUME(vn >= -NMAX && vn <= NMAX && vn != 0);
-	ASSUME(vunit == DT_DURH || vunit == DT_DURM || vunit == DT_DURS || vunit == DT_DURD ||
-	       vunit == DT_DURMO || vunit == DT_DURYR || vunit == DT_DURWK);
-	s0 = (vh * 60 + vmi) * 60 + vs;
-	sl = (vlh * 60 + vlmi) * 60 + vls;
+	memset(&x, 0, sizeof(x));
+	x.t.hms.h = h, x.t.hms.m = m, x.t.hms.s = sec;
+	dt_make_t_only(&x, DT_HMS);
+	x.d.u = (uint32_t)carries;
+	return x;
+}
+
+void
+h_times(void)
+{
+	ND_ARR(u8, vf, 3);	/* FIRST h, m, s */
+	ND_ARR(u8, vl, 3);	/* LAST */
+	ND_ARR(u8, vx, 3);	/* the state's time */
+	ND(i32, vn);
+	ND(i32, vn2);
+	ND(i32, vc);
+	struct dseq_clo_s clo;
+	struct dt_dtdur_s ite[2];
+	int step, astep, dir, dist, off;
+	int vs0, vsl, vt;
+
+	ASSUME(vf[0] < 24 && vf[1] < 60 && vf[2] < 60);
+	ASSUME(vl[0] < 24 && vl[1] < 60 && vl[2] < 60);
+	ASSUME(vx[0] < 24 && vx[1] < 60 && vx[2] < 60);
+	/* seconds of the day in the same form vf_secs() uses */
+	vs0 = (vf[0] * 60 + vf[1]) * 60 + vf[2];
+	vsl = (vl[0] * 60 + vl[1]) * 60 + vl[2];
+	vt = (vx[0] * 60 + vx[1]) * 60 + vx[2];
 	/* equal bounds are outside: the tool goes once around the clock, the
 	 * property's text can be read either way */
-	ASSUME(s0 != sl);
+	ASSUME(vs0 != vsl);
+	ASSUME(vn >= -NMAX && vn <= NMAX && vn != 0);
+	memset(&clo, 0, sizeof(clo));
+	clo.fst = mk_tod(vf[0], vf[1], vf[2], 0);
+	clo.lst = mk_tod(vl[0], vl[1], vl[2], 0);
+	ite[0] = mk_dur(UNIT, vn);
+	clo.ite = ite;
+	clo.nite = 1;
+#if defined UNIT2
+	/* compound increment, e.g. 1h30m: both parts in the same direction */
+	ASSUME(vn2 >= -NMAX && vn2 <= NMAX && vn2 != 0 && (vn2 > 0) == (vn > 0));
+	ite[1] = mk_dur(UNIT2, vn2);
+	clo.nite = 2;
+# define USECS(u)	((u) == DT_DURH ? 3600 : (u) == DT_DURM ? 60 : (u) == DT_DURS ? 1 : 0)
+	step = vn * USECS(UNIT) + vn2 * USECS(UNIT2);
+#else
+# define USECS(u)	((u) == DT_DURH ? 3600 : (u) == DT_DURM ? 60 : (u) == DT_DURS ? 1 : 0)
+	step = vn * USECS(UNIT);
+#endif
 	/* steps of a day and more are outside */
-	ASSUME(vunit != DT_DURH || (vn > -24 && vn < 24));
-	step = vunit == DT_DURH ? 3600 * vn : vunit == DT_DURM ? 60 * vn : vunit == DT_DURS ? vn : 0;
-	dist = step > 0 ? sl - s0 : s0 - sl;
+	ASSUME(step > -86400 && step < 86400);
+	astep = step > 0 ? step : -step;
+	dir = step > 0 ? 1 : -1;
+	dist = step > 0 ? vsl - vs0 : vs0 - vsl;
 	if (dist < 0) {
 		dist += 86400;
 	}
-	/* no more than KMAX + 1 members */
-	ASSUME(step == 0 || dist <= KMAX * (step > 0 ? step : -step));
-	memset(&clo, 0, sizeof(clo));
-	clo.fst.t.hms.h = vh, clo.fst.t.hms.m = vmi, clo.fst.t.hms.s = vs;
-	dt_make_t_only(&clo.fst, DT_HMS);
-	clo.lst.t.hms.h = vlh, clo.lst.t.hms.m = vlmi, clo.lst.t.hms.s = vls;
-	dt_make_t_only(&clo.lst, DT_HMS);
-	ite = mk_dur(vunit, vn);
-	clo.ite = &ite;
-	clo.nite = 1;
 
-	rc = vf_run(&clo, 0);
-	CHECK(vf_contract_domain, "contract domain covers the run");
-	if (step == 0) {
-		CHECK(rc < 0 || (rc == 0 && nout == 0), "a date unit between two times is refused or gives nothing, never an endless run");
-		WITNESS();
-		return;
+#if LEMMA == 1	/* DIR */
+	CHECK(!__durstack_naught_p(clo.ite, clo.nite), "a non-zero increment is not naught");
+	{
+		int d = __get_dir(clo.fst, &clo);
+		CHECK(step > 0 ? d > 0 : step < 0 ? d < 0 : d == 0,
+		      "direction is the sign of the movement; a unit that cannot move a time of day is refused, never run endlessly");
 	}
-	CHECK(rc == 0, "a time increment is not refused and the run ends once LAST is passed");
-	for (int k = 0; k <= KMAX; k++) {
-		int off = k * (step > 0 ? step : -step);
-		if (off <= dist) {
-			/* off <= dist < 24 h: at most one wrap */
-			int v = s0 + k * step;
-			if (v < 0) {
-				v += 86400;
-			} else if (v >= 86400) {
-				v -= 86400;
-			}
-			ok &= expn < (int)nout && outv[expn < MAXOUT ? expn : 0] == v;
-			expn++;
+#else
+	ASSUME(step != 0);
+	clo.dir = dir;
+	/* a state the loop can be in: time vt on day vc after FIRST's, not
+	 * before FIRST, and the predecessor still in range (the loop stops at
+	 * the first member beyond LAST); that the offset is a multiple of INC
+	 * is not used */
+	ASSUME(vc >= -3 && vc <= 3);
+	off = dir > 0 ? vc * 86400 + vt - vs0 : vs0 - (vc * 86400 + vt);
+	ASSUME(off >= 0 && off - astep <= dist);
+# if LEMMA == 2	/* RANGE */
+	CHECK(__in_range_p(mk_tod(vx[0], vx[1], vx[2], vc), &clo) == (bool)(off <= dist),
+	      "in range iff LAST has not been passed, going around the clock in the direction of INC");
+# elif LEMMA == 3	/* THIS and NEXT */
+	{
+		struct dt_dt_s x = mk_tod(vx[0], vx[1], vx[2], vc);
+		struct dt_dt_s t = __seq_this(x, &clo);
+		struct dt_dt_s n = __seq_next(x, &clo);
+		/* x + INC field by field in one go (seconds, then minutes, then
+		 * hours, then days); equal to "seconds since FIRST's midnight plus
+		 * step" because the fields stay in their ranges, and without the
+		 * products the SAT back end cannot relate to the code's carries */
+		int dh = 0, dm = 0, ds = 0;
+		int S, M, H, cs, cm, ch;
+		ASSUME(off <= dist);
+		CHECK(vf_secs(t.t) == vt && (int32_t)t.d.u == vc, "this: no skip set, the value itself");
+		if (UNIT == DT_DURH) {
+			dh += vn;
+		} else if (UNIT == DT_DURM) {
+			dm += vn;
+		} else {
+			ds += vn;
 		}
+#if defined UNIT2
+		if (UNIT2 == DT_DURH) {
+			dh += vn2;
+		} else if (UNIT2 == DT_DURM) {
+			dm += vn2;
+		} else {
+			ds += vn2;
+		}
+#endif
+		S = vx[2] + ds;
+		cs = S < 0 ? -1 : S >= 60 ? 1 : 0;
+		M = vx[1] + dm + cs;
+		cm = M < 0 ? -1 : M >= 60 ? 1 : 0;
+		H = vx[0] + dh + cm;
+		ch = H < 0 ? -1 : H >= 24 ? 1 : 0;
+		CHECK((int)n.t.hms.s == S - 60 * cs && (int)n.t.hms.m == M - 60 * cm && (int)n.t.hms.h == H - 24 * ch,
+		      "next: one increment further around the clock");
+		CHECK((int32_t)n.d.u == vc + ch, "next: day carries accounted");
 	}
-	CHECK((int)nout == expn, "nothing beyond LAST, nothing twice");
-	CHECK(ok, "exactly FIRST + k*INC around the clock, in order");
+# endif
+#endif
+	CHECK(vf_contract_domain, "contract domain covers the step");
+	(void)astep, (void)dist, (void)off, (void)vc, (void)vt, (void)vn2;
 	WITNESS();
 }
 #endif	/* PART_CONTRACT */
